@@ -6,6 +6,7 @@ package ribhist
 import (
 	"fmt"
 	"github.com/openconfig/gribigo/server"
+	"os"
 	"sort"
 	"strings"
 
@@ -159,6 +160,9 @@ type Checks struct {
 	GetFold bool
 }
 
+// AllInvariants (default; VERIF_NARROW_ORACLES=1 switches it off) makes every search evaluate all state invariants.
+var AllInvariants = os.Getenv("VERIF_NARROW_ORACLES") == ""
+
 // HookConfig selects how the change hook is attached (C16).
 type HookConfig int
 
@@ -209,6 +213,15 @@ func New(o *Options) func() mc.Instance {
 		var opts []rib.RIBOpt
 		if o.NoFwdRefs {
 			opts = append(opts, rib.DisableForwardReferences())
+		}
+		if AllInvariants {
+			// Every RIB-tier search evaluates every state invariant, whatever property it was written for: contents =
+			// fold of the acknowledgements (C01), resolvability / held operations (C02), protection counters = referrers
+			// (C03). A defect that breaks one of them in a state that only another property's search reaches is then
+			// reported by that search (under the signature of the invariant it breaks).
+			oc := *o
+			oc.Checks.Fold, oc.Checks.Resolve, oc.Checks.Referrers = true, true, true
+			o = &oc
 		}
 		in := &inst{o: o, fold: ribx.NewModel(D, V), sent: map[uint64]*spb.AFTOperation{}, answered: map[uint64]string{}}
 		in.r = rib.New(D, opts...)
